@@ -5,7 +5,32 @@ import (
 	"os"
 	"os/exec"
 	"strings"
+	"time"
 )
+
+// Hangs runs f and reports whether it fails to return: under the engine, f ends in a state where every goroutine is
+// blocked (a receive on an empty channel with nothing left to run); natively, f has not returned after three seconds.
+// A panic in f propagates. (intercepted)
+func Hangs(f func()) bool {
+	done := make(chan struct{})
+	var pv interface{}
+	go func() {
+		defer func() {
+			pv = recover()
+			close(done)
+		}()
+		f()
+	}()
+	select {
+	case <-done:
+		if pv != nil {
+			panic(pv)
+		}
+		return false
+	case <-time.After(3 * time.Second):
+		return true
+	}
+}
 
 // Native realisation of a crash point (used by harnesses whose model has a "crash before the k-th file operation"
 // variable). The replay test re-executes itself as a workload child (env ZZVERIF_CRASH_DIR set) under gdb: a breakpoint
